@@ -608,11 +608,11 @@ func c17EnumerateTCP(sh *evidence.Shard) {
 	}
 	fullMax, cutsPrimary, cutsOther := 12, 2, 2
 	if th {
-		fullMax, cutsPrimary = 15, 3
+		fullMax, cutsPrimary, cutsOther = 15, 3, 3
 	}
 	p.Alphabet = map[string]any{
 		"templates": names,
-		"splits": fmt.Sprintf("all 2^(n-1) chunkings for streams of <= %d bytes; longer streams: every chunking with <= %d cuts (3 primary configurations) / <= %d cuts (the other hooked configurations) over {1..8, each structural boundary -1/0/+1, n-1}; the header-over-limit template: <= 1 / 0 cuts",
+		"splits": fmt.Sprintf("all 2^(n-1) chunkings for streams of <= %d bytes; longer streams: every chunking with <= %d cuts (3 primary configurations) / <= %d cuts (the other hooked configurations) over {1..8, each structural boundary -1/0/+1, n-1}; the header-over-limit template: <= 1 / 0 cuts; thorough tier additionally: every <= 2-cut chunking over every offset of the first and the last 64 bytes",
 			fullMax, cutsPrimary, cutsOther),
 		"deadline":    "fires at the k-th Read call for every k the sniffer reaches (pure timeout, or delivered together with that read's chunk), or never",
 		"end":         []string{"client idle: read blocks until the deadline", "client FIN: (0,EOF)", "FIN with the last chunk: (n,EOF)", "stream reset after the last byte: (0,other error)"},
@@ -689,7 +689,7 @@ func c17EnumerateTCP(sh *evidence.Shard) {
 				offs = append(offs, b-1, b, b+1)
 			}
 			offs = append(offs, n-1)
-			enum.Splits(n, full, offs, maxCuts, func(cuts []int) bool {
+			visit := func(cuts []int) bool {
 				item++
 				if !env.Mine(item) {
 					return true
@@ -732,7 +732,32 @@ func c17EnumerateTCP(sh *evidence.Shard) {
 					run1(&ce)
 				}
 				return true
-			})
+			}
+			enum.Splits(n, full, offs, maxCuts, visit)
+			if th && wantHooked && n > full && !t.Heavy && !stop {
+				// second pass (thorough): denser cut positions - every offset of the first and last 64 bytes -
+				// with <= 2 cuts; chunkings already produced by the first pass are skipped
+				structural := map[int]bool{}
+				for _, o := range offs {
+					structural[o] = true
+				}
+				dense := append([]int(nil), offs...)
+				for o := 1; o <= 64; o++ {
+					dense = append(dense, o, n-o)
+				}
+				enum.Splits(n, 0, dense, 2, func(cuts []int) bool {
+					all := true
+					for _, c := range cuts {
+						if !structural[c] {
+							all = false
+						}
+					}
+					if all {
+						return true
+					}
+					return visit(cuts)
+				})
+			}
 			if stop {
 				return
 			}
